@@ -7,6 +7,7 @@ CONSTANTS
   CCs = {"", "C", "cdecl", "stdcall", "fastcall", "thiscall", "vectorcall", "system", "bogus"}
   ImplCCs = {"", "C", "cdecl", "stdcall", "fastcall", "thiscall", "vectorcall", "system", "Cdecl"}
   Ptrs = {4, 8}
+  NoRecv = {FALSE, TRUE}
 INVARIANTS Replay
 CHECK_DEADLOCK FALSE
 VIEW View
